@@ -358,6 +358,8 @@ class AuxFromProtobuf(IoContract):
             "new_table": z3.Not(z3.Select(alive0, s)),
             "well_formed": cell_wf(c1, s),
             "holds_the_message_bytes": z3.And(is_VRef(l), c1.get("raw_data", ref(l)) == c0.get("pb.AuxData.data", m)),
+            "resolver_is_the_live_table_of_the_loading_ir": c1.get("get_by_uuid", ref(l)) == Val.VPair(
+                Val.VOpaque(z3.IntVal(__import__("zlib").crc32(b"IR.get_by_uuid"))), VRef(a.ir.t)),
             "type_name_from_message": z3.And(c1.get("type_name", s) == c0.get("pb.AuxData.type_name", m),
                                              c1.get("type_name", ref(l)) == c0.get("pb.AuxData.type_name", m)),
         }
